@@ -10,11 +10,13 @@ using namespace std;
 StringTokenizer::StringTokenizer(const std::string& s, const std::string& delimiters, bool solid, bool allowEmptyTokens) :
   tokens_(),
   splits_(),
+  leading_(),
   currentPosition_(0)
 {
   if (!solid)
   {
     string::size_type index = s.find_first_not_of(delimiters, 0);
+    leading_ = s.substr(0, index);
     while (index != s.npos)
     {
       string::size_type newIndex = s.find_first_of(delimiters, index);
@@ -75,6 +77,8 @@ void StringTokenizer::removeEmptyTokens()
 std::string StringTokenizer::unparseRemainingTokens() const
 {
   string s;
+  if (currentPosition_ == 0)
+    s = leading_;
   for (size_t i = currentPosition_; i < tokens_.size(); ++i)
   {
     s += tokens_[i];
